@@ -90,7 +90,33 @@ def tie(ctx, model_ok=True):
                     f'aliased document {c.text!r} gives {c.outcome!r} but its expansion {t_exp!r} gives {e.outcome!r}')
         return None
 
-    res = loadprop.run_stream(ctx, 'C18', stream(), [pair_oracle], compare_if=lambda c: c.desc != 'cycle' or True)
+    # Loader.__expand_aliases vs Graph.expand on the composed graphs
+    exp_terms, exp_texts = [], []
+
+    def expand_probe(c):
+        if c.doc is None:
+            return None
+        import yatiml as _y
+        ld = _y.load_function().loader('')
+        try:
+            tree = ld._Loader__expand_aliases(c.doc, frozenset())
+            exp = f'(Ok {encode.node_term(tree)})'
+        except _y.RecognitionError:
+            exp = '(Err ERecognition)'
+        except RecursionError:
+            exp = '(Err (EPy PyRecursionError))'
+        g, r = encode.graph_term(c.doc)
+        exp_terms.append('{| ec_graph := ' + g + f'; ec_root := {r}%nat; ec_expect := ' + exp + ' |}')
+        exp_texts.append(c.text)
+        return None
+
+    res = loadprop.run_stream(ctx, 'C18', stream(), [pair_oracle, expand_probe])
+    import nodeops as _no
+    bad = _no.eval_shards('C18x', exp_terms, per_shard=200,
+                          header=loadcase.HEADER.replace('LoadRun.', 'LoadRun Graph.'), fn='exp_mismatches', ctype='expcase')
+    for b in bad[:20]:
+        res['disagreements'].append({'kind': 'C18-expand', 'text': exp_texts[b]})
+    res['distribution']['expand_compared'] = len(exp_terms)
     res['rule'] = ('C01-style (class model, document) pairs re-composed and given 1-2 sharings of equal sub-nodes (or forced '
                    'sharing across positions of different declared types); each aliased text is loaded, its textual expansion is '
                    'loaded, and the aliased one is compared with the Coq model evaluated on the expanded tree; plus 7 cyclic '
